@@ -199,7 +199,7 @@ func (e *Env) Infra(msg string) {
 func (e *Env) Failed() bool {
 	e.mu.Lock()
 	defer e.mu.Unlock()
-	return e.viol != nil || e.infra != ""
+	return e.viol != nil || e.infra != "" || e.fwPanic != ""
 }
 
 // Probe counts that a rare condition was reached.
